@@ -243,6 +243,28 @@ FOCUSES = [("MC_Scopes", "scopes", {}, 2, 3), ("MC_Flow", "flow", {}, 1, 2), ("M
            ("MC_Undef", "undef-single", {"Variant": '"single"'}, 1, 1), ("MC_Attr", "attr-all", {"Variant": '"all"'}, 1, 1)]
 
 
+def judge_globals(rec, opts):
+    """S->C: every name the reference semantics looks up in the global namespace (LiquidGen!LookedUp)
+    is a global (or a template-bound name) of the library's report."""
+    from liquid2 import DictLoader
+    templates = {replay.conc(n): replay.conc(t) for n, t in rec["templates"]}
+    env = replay.make_env(rec["cfg"], loader=DictLoader(dict(templates)))
+    try:
+        a = env.from_string(templates["main"], name="main").analyze()
+    except Exception:  # noqa: BLE001
+        return []
+    want = {replay.conc(g) for g in rec["looked_up"]}
+    # (a name the template binds somewhere - analyze().locals - is not "never bound": the property asks for the others)
+    missing = sorted(g for g in want if g not in a.globals and g not in a.locals)
+    if missing:
+        return [(f"model-global-not-reported:{kinds_of(templates['main'])}", {"templates": templates, "looked_up": sorted(want), "globals": sorted(a.globals)})]
+    return []
+
+
+MODEL_FOCUSES = [("MC_Scopes", "scopes-g", {}, 2, 3), ("MC_Flow", "flow-g", {}, 1, 2), ("MC_Lambda", "lambda-g", {}, 4, 4),
+                 ("MC_Exprs", "exprs-g", {}, 1, 1), ("MC_Loops", "loops-g", {"Variant": '"single"'}, 1, 1)]
+
+
 def check(tier: str) -> int:
     chk = Check("C11", tier)
     chk.assumptions += ["partials and parents are named by string literals (a computed name cannot be known statically)",
@@ -257,6 +279,15 @@ def check(tier: str) -> int:
             gen.replay_file(chk, r.workdir / "out.ndjson", "harness.c11", "judge")
         finally:
             r.cleanup()
+    for module, name, consts, q, t in MODEL_FOCUSES:
+        r = gen.run_focus(chk, module, name, max_top=t if tier == "thorough" else q, extra_constants=consts,
+                          export="ExportGlobals", invariants=())
+        if r is None:
+            continue
+        try:
+            gen.replay_file(chk, r.workdir / "out.ndjson", "harness.c11", "judge_globals")
+        finally:
+            r.cleanup()
     return chk.finish()
 
 
@@ -264,7 +295,7 @@ def replay_file(path: str) -> int:
     import json
     d = json.load(open(path))
     rec = d["record"]["record"] if "record" in d["record"] else d["record"]
-    res = judge(rec, {})
+    res = judge_globals(rec, {}) if "looked_up" in rec else judge(rec, {})
     print(rec["templates"])
     for sig, det in res:
         print("FAILS:", sig, {k: v for k, v in det.items() if k != "templates"})
